@@ -187,6 +187,7 @@ var effContracts = map[string]effContract{
 	"crypto/aes.NewCipher":              {pure: true},
 	"crypto/cipher.NewCTR":              {pure: true},
 	"(crypto/cipher.Stream).XORKeyStream": {writes: []int{1}},
+	"(*crypto/cipher.ctr).XORKeyStream":   {writes: []int{1}},
 	"github.com/aead/cmac.Sum":          {pure: true},
 	"github.com/aead/cmac.New":          {pure: true},
 	"(hash.Hash).Write":                 {pure: true},
